@@ -1,5 +1,5 @@
 (** C15 — The working set lists exactly the pending tasks, with stable numbering. *)
-From TC Require Import Model.TaskDb Proofs.ApplyP Proofs.CommitP Proofs.WorkingSetP Proofs.WorkingSetSmall Proofs.WorkingSetNoDupP.
+From TC Require Import Model.TaskDb Proofs.ApplyP Proofs.CommitP Proofs.WorkingSetP Proofs.WorkingSetSmall Proofs.WorkingSetNoDupP Proofs.WriteBackP.
 
 (** [rebuild_spec_ws] is the working set a rebuild produces (see
     [C15_writeback_small_scope] and the correspondence check for the write-back).
@@ -61,6 +61,24 @@ Theorem C15_ws_no_duplicates : forall (in_ws : gmap N N -> bool) all s renumber,
   NoDup (omap id (rebuild_spec_ws in_ws all s renumber)).
 Proof. exact ws_nodup. Qed.
 
+(** The write-back of [rebuild] through the storage calls -- the zip over old
+    and new entries with [set_working_set_item] (whose vector is re-normalised
+    after every call), then blanking or appending the rest -- succeeds and
+    produces [rebuild_spec_ws], touching nothing else, for EVERY store whose
+    working set is in the storage's normal form (position 0 blank, no trailing
+    blank), every listing order and both modes; and the result is again in
+    normal form.  (The enumeration above is kept as an independent check.) *)
+Theorem C15_rebuild_writes_spec : forall (in_ws : gmap N N -> bool) all s renumber,
+  ws_normal (st_ws s) ->
+  exists s', rebuild_with in_ws all s renumber = Some s'
+    /\ st_ws s' = rebuild_spec_ws in_ws all s renumber
+    /\ st_tasks s' = st_tasks s /\ st_base s' = st_base s /\ st_ops s' = st_ops s.
+Proof. exact rebuild_writes_spec. Qed.
+
+Theorem C15_rebuild_result_is_normal : forall (in_ws : gmap N N -> bool) all s renumber,
+  ws_normal (rebuild_spec_ws in_ws all s renumber).
+Proof. exact rebuild_spec_normal. Qed.
+
 Print Assumptions C15_ws_exact.
 Print Assumptions C15_position_zero.
 Print Assumptions C15_ws_stable.
@@ -69,3 +87,5 @@ Print Assumptions C15_ws_compact.
 Print Assumptions C15_commit_appends.
 Print Assumptions C15_writeback_small_scope.
 Print Assumptions C15_ws_no_duplicates.
+Print Assumptions C15_rebuild_writes_spec.
+Print Assumptions C15_rebuild_result_is_normal.
